@@ -288,6 +288,22 @@ def run(prog: Program, L: Ledger) -> None:
     cs = [s_ for s_ in pre if isinstance(s_, ast.Assign) and isinstance(s_.targets[0], ast.Subscript) and norm(s_.targets[0].value) == cname]
     okc = pair is not None and len(cs) == 1 and norm(cs[0].targets[0].slice) in (f"({pair[0]}, {pair[1]})", f"({pair[1]}, {pair[0]})") and norm(cs[0].value) in ("1", "True")
     L.check(okc, "R2", "search_molecules:connectivity", f"{rel2}:{cs[0].lineno if cs else sm0.node.lineno}", "connectivity[i, j] = 1 for every neighbour pair not found", "", norm(cs[0]) if cs else "")
+    # the connectivity matrix is a zero matrix allocated by this call (not a shared / memoised / pre-filled array):
+    # bonds of an earlier call or configuration must not survive into this one
+    cdefs = [s_ for s_ in pre if isinstance(s_, (ast.Assign, ast.AnnAssign)) and s_.value is not None and any(isinstance(t, ast.Name) and t.id == cname for t in (s_.targets if isinstance(s_, ast.Assign) else [s_.target]))]
+    fresh = False
+    detail_c = "no definition"
+    if len(cdefs) == 1 and isinstance(cdefs[0].value, ast.Call):
+        cv = cdefs[0].value
+        fn = norm(cv.func)
+        detail_c = norm(cv)[:80]
+        shape_ok = bool(cv.args) and isinstance(one_step(cv.args[0]) if isinstance(cv.args[0], ast.Name) else cv.args[0], ast.Tuple)
+        if fn in ("np.zeros", "numpy.zeros") and shape_ok:
+            fresh = True
+        elif fn in ("np.full", "numpy.full") and shape_ok and len(cv.args) > 1 and norm(cv.args[1]) in ("0", "0.0", "False"):
+            fresh = True
+    L.check(fresh, "R2", "search_molecules:connectivity-fresh", f"{rel2}:{cdefs[0].lineno if cdefs else sm0.node.lineno}",
+            f"the connectivity matrix is `{detail_c}`, not a zero matrix allocated by this call", "bonds recorded by an earlier call (or left in a shared array) merge molecules that are no longer connected", detail_c)
     L.ok("R2", "search_molecules:return", f"{rel2}:{rets[0].lineno}")
 
 
